@@ -193,6 +193,20 @@ def _yaml_case(rng, tier, file=False):
     return {"kind": "yaml", "rules": rules, "sseed": rng.randrange(10**6), "doc": doc, "file": file}
 
 
+_strata0 = strata
+
+
+def strata(tier):  # noqa: F811
+    yield from _strata0(tier)
+    from .. import corpus
+    for e in corpus.CORPUS:
+        rules = [{k: v for k, v in r.items() if k != "doc"} for r in e["rules"]]
+        for j in range(6 if tier == "quick" else 40):
+            rng = G.rng_for("W4-C10", e["name"], j)
+            doc = e["doc"] if j == 0 else corpus.perturb(rng, e["doc"])
+            yield {"kind": "yaml", "rules": rules, "sseed": j, "doc": doc, "file": j % 2 == 0, "w4": e["name"]}
+
+
 def budget(tier):
     return 20000 if tier == "quick" else 400000
 
@@ -578,3 +592,5 @@ def run_yaml(case, ctx):
             ctx.mark_nontrivial((text, repr(doc)))
             ctx.sample({"yaml": text, "doc": doc}, cap=2)
     ctx.count("yaml")
+    if case.get("w4"):
+        ctx.count("W4-corpus-cases")
